@@ -169,3 +169,38 @@ Proof.
   - discriminate.
   - change (Z.of_N 0) with 0. rewrite Z.pow_0_r, Z.mul_1_r, Z.add_0_l. exact H.
 Qed.
+
+(** ** the signed reader returns a 64-bit value *)
+Lemma signed64_range x : - 2 ^ 63 <= signed64 x < 2 ^ 63.
+Proof.
+  unfold signed64. pose proof (N.mod_lt x (2 ^ 64) ltac:(discriminate)) as B.
+  set (y := (x mod 2 ^ 64)%N) in *. clearbody y.
+  change (2 ^ 64)%N with 18446744073709551616%N in *. change (2 ^ 63)%N with 9223372036854775808%N.
+  change (2 ^ 64) with 18446744073709551616. change (2 ^ 63) with 9223372036854775808.
+  destruct (N.ltb_spec y 9223372036854775808); cbv iota; lia.
+Qed.
+Lemma sread_range : forall maxb bs shift acc v r,
+  (acc < 2 ^ shift)%N -> sread maxb bs shift acc = Some (v, r) -> - 2 ^ 63 <= v < 2 ^ 63.
+Proof.
+  induction maxb as [|k IH]; intros bs shift acc v r Hacc; [discriminate|].
+  destruct bs as [|b t]; [discriminate|]. rewrite sread_S.
+  destruct ((shift =? 63) && negb (b =? 0) && negb (b =? 127))%N; [discriminate|].
+  set (X := (acc + (b mod 128) * 2 ^ shift)%N).
+  assert (HX : (X < 2 ^ (shift + 7))%N).
+  { rewrite N.pow_add_r. change (2 ^ 7)%N with 128%N.
+    pose proof (N.mod_lt b 128 ltac:(discriminate)). unfold X. nia. }
+  assert (HXm : (X mod 2 ^ 64 <= X)%N) by (apply N.mod_le; discriminate).
+  destruct (b <? 128)%N.
+  - destruct ((shift + 7 <? 64) && (64 <=? b mod 128))%N eqn:C; intros H; inversion H; subst; clear H.
+    + apply andb_true_iff in C. destruct C as [C1 _]. apply N.ltb_lt in C1.
+      assert (E : Z.of_N (2 ^ (shift + 7)) = 2 ^ Z.of_N (shift + 7)) by apply N2Z.inj_pow.
+      assert (Z.of_N (X mod 2 ^ 64) < 2 ^ Z.of_N (shift + 7)) by (rewrite <- E; lia).
+      assert (2 ^ Z.of_N (shift + 7) <= 2 ^ 63) by (apply Z.pow_le_mono_r; lia).
+      assert (0 < 2 ^ Z.of_N (shift + 7)) by (apply Z.pow_pos_nonneg; lia).
+      pose proof (N2Z.is_nonneg (X mod 2 ^ 64)).
+      lia.
+    + apply signed64_range.
+  - apply IH. lia.
+Qed.
+Theorem decode_s64_range bs v r : decode_s64 bs = Some (v, r) -> - 2 ^ 63 <= v < 2 ^ 63.
+Proof. unfold decode_s64. apply sread_range. reflexivity. Qed.
